@@ -5,7 +5,8 @@ import OnlVerif.Generated.Sched
 /-!
 # Bridge between the *generated* WFQ / VirtualClock stamp code and the hand-written stamp functions
 
-`Generated/Sched.lean` is rewritten from `onl/scheduler/wfq.py`, `virtual_clock.py`, `base.py` on every `./check C14`.
+`Generated/Sched.lean` is rewritten from `onl/scheduler/wfq.py`, `virtual_clock.py` on every `./check C14` (the transmission
+delay of `Scheduler.send_packet`, `base.py`, belongs to C12: `Generated/SchedTx.lean`, `Lemmas/GenSchedTx.lean`).
 The model keeps the per-class dicts (`finish_times`, `class_count`, `vc`, `aux_vc`) as association lists and every lookup
 that can miss as an explicit error; the generated code is the method *seen from the class of the packet in hand*: the dict
 entries of that class are scalar fields.  `GenSched.wfqObj` / `vcObj` is that view of a model state; the weights of the
@@ -110,14 +111,5 @@ theorem vc_put_eq (c : VcCfg ℚ) (st st' : VcSt ℚ) (now : ℚ) (total : Int) 
   refine ⟨k, v, a, vt, _, _, hk, hv, ha, hvt, ?_, ?_, vc_put_core c v a vt now p.size e1 e3 ps pa⟩
   · simp only [lookup_setKey, if_true]
   · simp only [lookup_setKey, if_true]
-
-/-! ### `Scheduler.send_packet` -/
-
-theorem send_delay_eq {σ : Type} (d : Sched ℚ σ) (p : SPkt) :
-    Gen.Scheduler.send_delay { rate := d.rate } p.size = Stamp.txTime d p := by
-  unfold Gen.Scheduler.send_delay Stamp.txTime
-  simp only [Num.ofInt_rat, Num.ofNat_rat']
-  push_cast
-  ring
 
 end GenSched
